@@ -3,13 +3,14 @@ import os, json
 import vlib
 
 LEVEL = "model_checking"
-INVS = "RepsValid PatternKept ExactDomain CompleteIsFull Assoc LumpIsMatVec Emit"
+INVS = "RepsValid PatternKept ExactDomain CompleteIsFull Assoc LumpIsMatVec DMulLaws Emit"
 
 
-def cfg_text(fmt, grp, m, k, n, maxrow=9, bh=1, bw=1, pal=1, arrayless=False, nalpha=2):
+def cfg_text(fmt, grp, m, k, n, maxrow=9, bh=1, bw=1, pal=1, arrayless=False, nalpha=2, abfull=False):
     return ("SPECIFICATION Spec\nCONSTANTS Fmt = \"%s\" Group = \"%s\" M0 = %d M1 = %d K0 = %d K1 = %d N0 = %d N1 = %d MaxRow = %d "
-            "BH = %d BW = %d Palette = %d ArrayLess = %s NAlpha = %d\nINVARIANTS %s\nCHECK_DEADLOCK FALSE\n"
-            % (fmt, grp, m[0], m[1], k[0], k[1], n[0], n[1], maxrow, bh, bw, pal, "TRUE" if arrayless else "FALSE", nalpha, INVS))
+            "BH = %d BW = %d Palette = %d ArrayLess = %s NAlpha = %d ABFull = %s\nINVARIANTS %s\nCHECK_DEADLOCK FALSE\n"
+            % (fmt, grp, m[0], m[1], k[0], k[1], n[0], n[1], maxrow, bh, bw, pal, "TRUE" if arrayless else "FALSE", nalpha,
+               "TRUE" if abfull else "FALSE", INVS))
 
 
 def C(fmt, grp, m, k, n, **kw):
@@ -35,6 +36,12 @@ def configs(tier):
             C("bcsr", "elem", (0, 3), z, (0, 3), bh=2, bw=2, pal=1), C("bcsr", "elem", (0, 2), z, (0, 3), bh=2, bw=3, pal=2),
             C("bcsr", "elem", (0, 3), z, (0, 2), bh=3, bw=2, pal=1), C("bcsr", "elem", (0, 2), z, (0, 2), bh=2, bw=2, pal=2, arrayless=True),
             C("bcsr", "dmm", (1, 1), (1, 2), (2, 2), bh=2, bw=2, pal=1), C("bcsr", "dmm", (2, 2), (1, 1), (2, 2), bh=2, bw=2, pal=2),
+            # DenseMatrix: axpy/scale/norm and the multiply overloads (left factor: all CSR patterns; all 25 (alpha, beta))
+            C("csr", "delem", (1, 4), z, (1, 5), pal=1), C("csr", "delem", (1, 4), z, (1, 5), pal=2),
+            C("csr", "dmul", (1, 3), (1, 3), (1, 3), pal=1, abfull=True, arrayless=True),
+            C("csr", "dmul", (1, 3), (1, 3), (1, 3), pal=2, abfull=True),
+            C("csr", "dmul", (4, 4), (3, 3), (2, 2), pal=1, arrayless=True), C("csr", "dmul", (3, 3), (4, 4), (2, 2), pal=1),
+            C("csr", "dmul", (2, 2), (2, 2), (4, 5), pal=1, abfull=True), C("csr", "dmul", (5, 5), (2, 2), (1, 1), pal=2, maxrow=1),
         ]
     return [
         C("csr", "elem", (0, 3), z, (0, 3), pal=1), C("csr", "elem", (0, 2), z, (0, 3), pal=2),
@@ -49,13 +56,22 @@ def configs(tier):
         C("bcsr", "elem", (0, 2), z, (0, 2), bh=2, bw=2, pal=1), C("bcsr", "elem", (0, 2), z, (0, 2), bh=2, bw=3, pal=2),
         C("bcsr", "elem", (0, 2), z, (0, 2), bh=3, bw=2, pal=1), C("bcsr", "elem", (0, 1), z, (0, 2), bh=2, bw=2, pal=2, arrayless=True),
         C("bcsr", "dmm", (1, 1), (1, 1), (2, 2), bh=2, bw=2, pal=1), C("bcsr", "dmm", (1, 1), (2, 2), (1, 1), bh=2, bw=2, pal=2),
+        # DenseMatrix: axpy/scale/norm and the multiply overloads; all shapes 1..3 x 1..3 x 1..3, every CSR pattern of the left factor
+        C("csr", "delem", (1, 3), z, (1, 4), pal=1), C("csr", "delem", (1, 2), z, (1, 3), pal=2),
+        C("csr", "dmul", (1, 3), (1, 3), (1, 3), pal=1, arrayless=True),
+        C("csr", "dmul", (1, 2), (1, 2), (1, 2), pal=2, abfull=True),
     ]
 
 
 def generate(chk, tier):
     import concurrent.futures as cf
     jobs = []
-    for q, (fmt, grp, m, k, n, kw) in enumerate(configs(tier)):
+    cfgs = configs(tier)
+    only = os.environ.get("VERIF_C03_ONLY")     # development aid: restrict to some groups, e.g. VERIF_C03_ONLY=dmul,delem
+    if only:
+        cfgs = [x for x in cfgs if x[1] in only.split(",")]
+        chk.extra["restricted_to_groups"] = only
+    for q, (fmt, grp, m, k, n, kw) in enumerate(cfgs):
         name = "gen_MatAlg_%d_%d.cfg" % (os.getpid(), q)
         with open(os.path.join(vlib.SPEC, name), "w") as f:
             f.write(cfg_text(fmt, grp, m, k, n, **kw))
@@ -80,6 +96,10 @@ def generate(chk, tier):
 
 
 def operands(c):
+    if c["grp"] == "delem":
+        return ["X"] if c["self"] or c["op"] == "norm_frobenius" else ["X", "Y"]
+    if c["grp"] == "dmul":
+        return ["X", "D", "B"] if c["self"] or c["op"] != "multiply_ddz" else ["X", "D", "B", "Y"]
     if c["grp"] == "elem":
         return ["X"] if c["self"] or c["op"] not in ("axpy", "scale", "scale_rows", "scale_cols") else ["X", "Y"]
     if c["grp"] == "dmm":
@@ -97,12 +117,13 @@ def sig(c, r):
     return {"fmt": c["fmt"], "grp": c["grp"], "op": c["op"], "outcome": r.get("outcome", "mismatch"), "expected": c["outcome"],
             # some operand is an entry-free matrix without arrays (dimension-only constructor) and has rows
             "arrayless_operand": any(c[o]["arrayless"] and c[o]["mb"] > 0 for o in ops),
-            "allow": c["allow"],
+            "allow": c["allow"], "dirty": c.get("dirty", False),
+            "empty_row_in_left_factor": c["grp"] == "dmul" and 0 in [b - a for a, b in zip(c["D"]["rep"]["rp"], c["D"]["rep"]["rp"][1:])],
             "multi_entry_row": max_row_entries(c["X"]) >= 2}
 
 
 def key(c):
-    return json.dumps([c["fmt"], c["grp"], c["pal"], c["op"], c["an"], c["ad"], c["self"], c["allow"], c["eps"],
+    return json.dumps([c["fmt"], c["grp"], c["pal"], c["op"], c["an"], c["ad"], c.get("bn"), c.get("bd"), c.get("dirty"), c["self"], c["allow"], c["eps"],
                        [(c[o]["mb"], c[o]["nb"], c[o]["bh"], c[o]["bw"], c[o]["rep"], c[o]["arrayless"]) for o in operands(c)]])
 
 
@@ -126,12 +147,21 @@ def run(chk):
     chk.extra["cases_per_op"] = ops
     chk.extra["product_cases_refusal_required"] = sum(1 for c in cases if c["outcome"] == "abort")
     chk.extra["product_cases_incomplete_allowed"] = sum(1 for c in cases if c["grp"] != "elem" and c["allow"] and c["outcome"] == "value")
+    chk.extra["dense_product_cases"] = sum(1 for c in cases if c["grp"] == "dmul")
+    chk.extra["dense_product_cases_left_factor_with_empty_row"] = sum(
+        1 for c in cases if c["grp"] == "dmul" and 0 in [b - a for a, b in zip(c["D"]["rep"]["rp"], c["D"]["rep"]["rp"][1:])])
+    chk.extra["dense_product_cases_beta_not_one"] = sum(1 for c in cases if c["grp"] == "dmul" and (c["bn"], c["bd"]) != (1, 1))
     chk.extra["refusals_observed"] = sum(1 for c, r in zip(cases, res) if c["outcome"] == "abort" and r.get("outcome") in ("abort", "exception"))
     chk.rule = ("every post-state of spec/MatAlg.tla: elem group = all shapes in the bounds x all sparsity patterns x every call "
                 "(axpy/scale with alpha in {0,1,-1,2,-1/2,-5/2} and x==this, scale_rows/cols, lump_rows, extract_diag, norms, extrema, "
                 "shrink(1..3)); product groups = all pattern triples (quadruples) (X, D, [A,] B) in the bounds x allow_incomplete "
                 "in {false,true} x alpha in {1,-2[,-1/2]}, with the outcome (value / must be refused) decided by the specification; "
-                "CSR replayed for float/double x uint32/uint64, BCSR 2x2, 2x3, 3x2 for double/uint64 and float/uint32; "
+                "DenseMatrix groups: delem = all shapes x axpy/scale (6 alpha, x==this)/norm_frobenius; dmul = all shapes (m,k,n) in the bounds x "
+                "every sparsity pattern of the left factor (CSR overloads: all patterns incl. empty rows and the entry-free matrix "
+                "in both states; dense overloads: the full pattern) x the four overloads of multiply onto a result matrix with prior "
+                "contents x (alpha, beta) from {0,1,-1,2,-1/2}^2 (all 25 pairs, or 7 covering pairs for the larger shapes) x z==this / "
+                "separate z, the plain products additionally with non-finite prior contents of the result; "
+                "CSR and DenseMatrix replayed for float/double x uint32/uint64, BCSR 2x2, 2x3, 3x2 for double/uint64 and float/uint32; "
                 "non-trivial = X has stored entries; distinct = distinct (format, call, operand arrays)")
     for c in cases[len(cases) // 2: len(cases) // 2 + 2] + cases[-1:]:
         chk.sample({k: (c[k] if k not in ("X", "D", "B", "XP") else {"rep": c[k]["rep"], "mb": c[k]["mb"], "nb": c[k]["nb"]})
@@ -140,6 +170,10 @@ def run(chk):
                        "norm_frobenius / row_norm2 are judged by |r^2 - N| <= 4 eps N with N the specification's exact sum of squares",
                        "axpy/scale/scale_rows/scale_cols are called with operands of identical layout only (documented precondition)",
                        "max/min(_abs)_element range over the stored entries (a stored zero counts, the zeros outside the pattern do not)",
+                       "DenseMatrix operands have non-zero dimensions (XASSERT of the constructor); multiply is called with x, y distinct from the result "
+                       "matrix (the kernels write the result while reading x and y), z may be the result matrix",
+                       "non-finite prior contents of the result are generated for the plain products this <- x*y only (for alpha*x*y + beta*z "
+                       "the term beta*z is part of the documented formula, also for beta = 0)",
                        "the BCSR double product is covered for BCSR x BCSR x BCSR with square 2x2 blocks; the CSR x BCSR x CSR overload is not generated"]
 
 
